@@ -21,6 +21,12 @@ def gen_cases(rng, tier):
             for s in (0, 1, 2, 29, 30, 58, 59):
                 for ms in (0, 1, 9, 10, 499, 500, 990, 999):
                     times.append((h, mi, s, ms))
+    # neighbouring values: consecutive creation times inside one 2-second slot (10 ms steps, odd second), and
+    # modification times 2 s apart - the editor compares with the stored value before rewriting
+    for base in [(10, 20, 30), (23, 59, 58), (0, 0, 0), (rng.range(0, 23), rng.range(0, 59), rng.range(0, 29) * 2)]:
+        for dms in (0, 10, 20, 990, 1000, 1010, 1990, 0, 1500, 10):
+            s_ = base[2] + dms // 1000
+            times.append((base[0], base[1], s_, dms % 1000))
     nd, nt = (600, 2500) if tier == "quick" else (0, 120000)
     if tier == "thorough":
         dates = [(y, mo, d) for y in range(1980, 2108) for mo in range(1, 13) for d in range(1, 32)]
@@ -38,6 +44,13 @@ def run(rep, tier, seed):
     for i in range(n):
         cases.append((dates[i % len(dates)], times[i % len(times)], dates[(i * 7 + 3) % len(dates)], times[(i * 5 + 1) % len(times)],
                       dates[(i * 11 + 5) % len(dates)]))
+    # consecutive creation stamps with the same date inside one 2-second slot (10 ms steps, odd second): the editor
+    # compares with the stored value before rewriting, so neighbours are the interesting pairs
+    walk = []
+    for (d0, (h, mi, s0)) in [((2001, 2, 3), (10, 20, 30)), ((1980, 1, 1), (0, 0, 0)), ((2107, 12, 31), (23, 59, 58))]:
+        for dms in (0, 10, 20, 990, 1000, 1010, 1990, 0, 1500, 10, 1000, 0):
+            walk.append((d0, (h, mi, s0 + dms // 1000, dms % 1000), d0, (h, mi, s0 + dms // 1000, dms % 1000), d0))
+    cases = walk + cases
     exhaustive_dates = tier == "thorough"
     # ---- implementation: set / flush / drop / reopen / list on each FAT width
     confs = [("12", 1048576, "-"), ("16", 16 * 1048576, "-"), ("32", 40 * 1048576, "512")]
